@@ -52,8 +52,11 @@ class CtorMonitor(taps.Monitor):
         sv = np.linalg.svd(c, compute_uv=False)
         if sv[-1] < 1e-3 * sv[0]:
             return None    # degenerate source: outside the quantifier
-        return {"src": src.points.copy(), "tgt": tgt.points.copy(), "opts": align.ctor_options(self.owner, args, kw),
-                "sd": digest(src), "td": digest(tgt)}
+        opts = align.ctor_options(self.owner, args, kw)
+        from menpo.transform.piecewiseaffine.base import AbstractPWA
+        if issubclass(self.owner, AbstractPWA):
+            opts["_source_arg"] = src.copy()       # a mesh handed over as source keeps its own triangles: "each source triangle" means those
+        return {"src": src.points.copy(), "tgt": tgt.points.copy(), "opts": opts, "sd": digest(src), "td": digest(tgt)}
 
     def post(self, ctx, st, args, kw, r, exc):
         t = args[0]
@@ -66,7 +69,7 @@ class CtorMonitor(taps.Monitor):
         if digest(src) != st["sd"] or digest(tgt) != st["td"]:
             ctx.fail("alignment_constructor_modified_the_callers_point_sets", cls=cls)
         align.SHADOW[id(t)] = (t, st["opts"])
-        ctx.see("alignment_classes", (cls, str(sorted(st["opts"].items(), key=str))))
+        ctx.see("alignment_classes", (cls, str(sorted(((k, v) for k, v in st["opts"].items() if not k.startswith("_")), key=str))))
         judge_common(ctx, t, st["src"], st["tgt"], "ctor")
         align.judge_family(ctx, t, st["src"], st["tgt"], st["opts"], "ctor")
 
@@ -165,13 +168,14 @@ def family_member(rng, kind, d, opts):
     """A random member of the alignment's own family as an (L, t) pair."""
     if kind == "AlignmentTranslation":
         return np.eye(d), rng.uniform(-5, 5, d)
+    near_one = 1.0 + rng.choice([-1.0, 1.0]) * 10.0 ** rng.uniform(-7.5, -3) if rng.random() < 0.2 else None    # (shapes normalised to almost the same size)
     if kind == "AlignmentUniformScale":
-        return np.eye(d) * rng.uniform(0.4, 2.5), np.zeros(d)
+        return np.eye(d) * (near_one or rng.uniform(0.4, 2.5)), np.zeros(d)
     if kind == "AlignmentRotation":
         return gen.rotation_matrix(rng, d, mirror=bool(opts.get("allow_mirror") and rng.random() < 0.5)), np.zeros(d)
     if kind == "AlignmentSimilarity":
         r = gen.rotation_matrix(rng, d, mirror=bool(opts.get("allow_mirror") and rng.random() < 0.5)) if opts.get("rotation", True) else np.eye(d)
-        return r * rng.uniform(0.4, 2.5), rng.uniform(-5, 5, d)
+        return r * (near_one or rng.uniform(0.4, 2.5)), rng.uniform(-5, 5, d)
     return gen.well_conditioned(rng, d), rng.uniform(-5, 5, d)
 
 
@@ -235,8 +239,25 @@ def w_align(ctx, rng, i):
                 s = ms.TriMesh(s.points * unit, trilist=s.trilist)
                 tg = ms.PointCloud(tg.points * unit)
                 opts["unit"] = "small" if unit < 1e-2 else "large" if unit > 30 else "unit"
-            if rng.random() < 0.5:
+            r_ = rng.random()
+            if r_ < 0.4:
                 s = ms.PointCloud(s.points)      # PWA triangulates a bare point cloud itself
+            elif r_ < 0.75:
+                # the source is a mesh in its own right: its own triangle list (not the Delaunay one), possibly coloured / textured
+                tl_f = tx.flip_an_edge(rng, s.points, tg.points, s.trilist)
+                if tl_f is not None:
+                    opts["own_triangulation"] = True
+                else:
+                    tl_f = np.asarray(s.trilist)
+                mk = int(rng.integers(0, 3))
+                if mk == 0:
+                    s = ms.TriMesh(s.points, trilist=tl_f)
+                elif mk == 1:
+                    s = ms.ColouredTriMesh(s.points, trilist=tl_f, colours=rng.random((len(s.points), 3)))
+                else:
+                    from menpo.image import Image
+                    s = ms.TexturedTriMesh(s.points, rng.random((len(s.points), 2)), Image(rng.random((1, 5, 6))), trilist=tl_f)
+                opts["source_class"] = type(s).__name__
             if rng.random() < 0.4:
                 # the target handed over as a mesh with a triangulation of its own (other triangles / other row order)
                 from scipy.spatial import Delaunay
